@@ -119,10 +119,26 @@ fn tnames(n: usize) -> Vec<String> {
 
 pub fn gen_plan(prop: &str, seed: u64) -> Plan {
     let mut rng = Rng::new(seed);
+    // one plan in sixteen may draw value classes that trigger the open findings
+    let spicy = rng.below(16) == 0;
+    set_spicy(spicy);
+    set_packed_strings_ok(false);
+    let mut plan = gen_plan_inner(prop, seed, &mut rng);
+    plan.knobs.insert("spicy".into(), spicy as i64);
+    plan
+}
+
+fn gen_plan_inner(prop: &str, seed: u64, rng: &mut Rng) -> Plan {
+    let mut rng = rng.fork();
     match prop {
         "C01" => {
             let mut p = base_plan(prop, "history", seed, &mut rng);
             p.opts.on_disk = rng.below(5) != 0;
+            if rng.below(3) == 0 {
+                // no compaction: every string class (packed, hex, long) can be stored and re-read
+                p.opts.partition_combine_factor = 999;
+            }
+            set_packed_strings_ok(p.opts.partition_combine_factor == 999);
             let nt = 1 + rng.below(2) as usize;
             let mut tables = gen_tables(&mut rng, nt, &tnames(3), &plain_names(), 5);
             let mut id = 1;
@@ -233,6 +249,7 @@ pub fn gen_plan(prop: &str, seed: u64) -> Plan {
             p.opts.wal_threads = *rng.pick(&[1usize, 2]);
             p.extras.push(Extra::NoGarbage);
             p.check_each = false;
+            p.max_steps = 20_000_000;
             let liveness = rng.below(3) == 0;
             if liveness {
                 // ingestion is held back by the log-size limit until the background flush runs
